@@ -172,6 +172,9 @@ func builtinArraySplice(call FunctionCall) Value {
 	deleteCount := length - start
 	if arg, ok := call.getArgument(1); ok {
 		deleteCount = valueToRangeIndex(arg, length-start, true)
+	} else if len(call.ArgumentList) == 0 {
+		// No start either: nothing is removed.
+		deleteCount = 0
 	}
 	valueArray := make([]Value, deleteCount)
 
